@@ -38,11 +38,11 @@ Options(plain, opt) ==    \* each: [evs, rb (read-back event), widths]
 \* represent its size as a known size - never widened silently, never rejected when it fits
 Representable(e) == SizeField(Len(PayloadOf(e.ty, e.val)), e.width).t = "ok"
 WidthExact(plain, opt) ==
-  IF \E i \in 1..Len(opt.evs) : LET e == opt.evs[i] IN e.res = "ok" /\ e.k = "elem" /\ e.width > 0 /\ ~Representable(e)
+  IF \E i \in 1..Len(opt.evs) : LET e == opt.evs[i] IN e.res = "ok" /\ e.k \in {"elem", "rawtag"} /\ e.width > 0 /\ ~Representable(e)
   THEN "C09: a size that the requested width cannot represent was accepted (the width cannot have been honoured)"
   ELSE IF AllOk(opt.evs) THEN Options(plain, opt)
   ELSE IF \E i \in 1..Len(opt.evs) : LET e == opt.evs[i] IN
-            e.res # "ok" /\ ~(e.res = "size" /\ e.k = "elem" /\ e.width > 0 /\ ~Representable(e))
+            e.res # "ok" /\ ~(e.res = "size" /\ e.k \in {"elem", "rawtag"} /\ e.width > 0 /\ ~Representable(e))
        THEN "C09: a size option that can be honoured was rejected, or a call was rejected for another reason"
   ELSE ""
 \* a Full item written with the unknown-size option (directly or through the deprecated call): if the writer accepts it,
